@@ -539,7 +539,11 @@ int __wrap_pthread_create(pthread_t *thr, const pthread_attr_t *attr, void *(*fn
     th->spin_obj = -1;
     vs_nthreads++;
     int rc = __real_pthread_create(&th->real, attr, vs_trampoline, (void *)(intptr_t)id);
-    if (rc) vs_harness_error("real pthread_create failed: %d", rc);
+    if (rc) { /* e.g. an affinity the kernel refuses: an environment answer the caller has to handle */
+        memset(th, 0, sizeof(*th));
+        vs_nthreads--;
+        return rc;
+    }
     *thr = th->real;
     return 0;
 }
